@@ -105,6 +105,11 @@ inline GSpec parseGSpec(const Case &c, bool directed) {
         if (op.kind == "hub" && s.n > 0)
             for (unsigned long long k = 0; k < op.u(2) && k < s.n; ++k)
                 s.edges.push_back(GEdge{(unsigned)(op.u(0) % s.n), (unsigned)((op.u(1) + k) % s.n), op.i(3) + (long long)(k % 5)});
+        // `op ring d x`: every vertex i joined to i+1 .. i+d (modulo n): thousands of edges
+        if (op.kind == "ring" && s.n > 0)
+            for (unsigned long long k = 1; k <= op.u(0) && k < s.n; ++k)
+                for (unsigned i = 0; i < s.n; ++i)
+                    s.edges.push_back(GEdge{i, (unsigned)((i + k) % s.n), op.i(1) + (long long)((i + k) % 7)});
         if (op.kind == "r" && s.n > 0) {
             GEdge r{(unsigned)(op.u(0) % s.n), (unsigned)(op.u(1) % s.n), 0};
             r.remove = true;
